@@ -146,6 +146,46 @@ func init() {
 		}
 		panic(unsupported{"reflect.Value.IsNil on " + r.t.String()})
 	})
+	intrinsics["reflect.TypeOf"] = func(e *Engine, fr *frame, a []Value) Value {
+		i := a[0].(iface)
+		if i.t == nil {
+			panic(unsupported{"reflect.TypeOf(nil)"})
+		}
+		return e.rtypeIface(i.t)
+	}
+	rtOf := func(e *Engine, v Value, what string) types.Type {
+		if i, ok := v.(iface); ok {
+			v = i.v
+		}
+		r, ok := v.(reflTypeV)
+		if !ok {
+			panic(unsupported{"reflect." + what + " on a type the model did not create"})
+		}
+		return r.t
+	}
+	intrinsics["(*reflect.rtype).Elem"] = func(e *Engine, fr *frame, a []Value) Value {
+		switch t := rtOf(e, a[0], "Type.Elem").Underlying().(type) {
+		case *types.Pointer:
+			return e.rtypeIface(t.Elem())
+		case *types.Slice:
+			return e.rtypeIface(t.Elem())
+		case *types.Array:
+			return e.rtypeIface(t.Elem())
+		}
+		panic(unsupported{"reflect.Type.Elem of this kind"})
+	}
+	intrinsics["reflect.Zero"] = func(e *Engine, fr *frame, a []Value) Value {
+		t := rtOf(e, a[0], "Zero")
+		var cell Value = e.zero(t)
+		return reflV{p: &cell, t: t}
+	}
+	intrinsics["reflect.New"] = func(e *Engine, fr *frame, a []Value) Value {
+		t := rtOf(e, a[0], "New")
+		target := new(Value)
+		*target = e.zero(t)
+		var cell Value = target
+		return reflV{p: &cell, t: types.NewPointer(t)}
+	}
 	intrinsics["(*reflect.rtype).Bits"] = func(e *Engine, fr *frame, a []Value) Value {
 		t := a[0].(reflTypeV).t
 		w, _, ok := e.intInfo(t)
